@@ -1,5 +1,5 @@
 (* C07 part 1 — proofs about the model of Givaro::Montgomery<int32_t> (Model.v, Section Ring32). *)
-From Coq Require Import ZArith Lia Bool Setoid Morphisms Znumtheory Zpow_facts.
+From Coq Require Import ZArith Lia Bool List Setoid Morphisms Znumtheory Zpow_facts.
 From C07 Require Import Param Model Redc.
 Local Open Scope Z_scope.
 Ltac Zify.zify_post_hook ::= Z.div_mod_to_equations.
@@ -16,6 +16,8 @@ Lemma param_max_lt_B : maxCardinality32 < B32. Proof. reflexivity. Qed.
 Lemma param_bound : (maxCardinality32 - 1) * (maxCardinality32 - 1) + (B32 - 1) * maxCardinality32 < W32.
 Proof. reflexivity. Qed.
 Lemma param_max_pos : 0 < maxCardinality32. Proof. reflexivity. Qed.
+Lemma param_B_lt_W : B32 < W32. Proof. reflexivity. Qed.
+Lemma param_B_gt_1 : 1 < B32. Proof. reflexivity. Qed.
 
 Definition admissible (p : Z) : Prop := 3 <= p <= maxCardinality32 /\ Z.odd p = true.
 Definition canon (p a : Z) : Prop := 0 <= a < p.
@@ -144,11 +146,15 @@ Qed.
 Lemma u32_s32_small_facts : (forall z, 0 <= z <= W32 - 1 -> u32 z = z) /\ (forall z, 0 <= z <= 2147483647 -> s32 z = z).
 Proof. split; intros z Hz; [apply u32_small; lia | apply s32_small; lia]. Qed.
 
+Lemma mulB_small x p : 0 <= x < p -> p * B32 < W32 -> 0 <= x * B32 < W32.
+Proof. intros Hx Hp. pose proof param_B_pos. nia. Qed.
+
 (* constructor: Montgomery(Residu_t p, int = 1) *)
 Theorem mk32_wf p : admissible p -> exists F, mk32 p = Some F /\ m_p F = p /\ wf32 F.
 Proof.
   intros Hadm. destruct (adm_bounds p Hadm) as (H3 & HpB & HpBW & HpW).
   pose proof param_B_pos as HB0. pose proof param_B_word as HBW. pose proof param_halfbits as Hh.
+  pose proof param_B_lt_W as HBltW. pose proof param_B_gt_1 as HB1.
   unfold mk32.
   rewrite (u32_small p) by lia.
   assert (HBp : 0 <= B32 mod p < p) by (apply Z.mod_pos_bound; lia).
@@ -156,27 +162,655 @@ Proof.
   assert (Hsh : forall x, Z.shiftl x HALF_BITS32 = x * B32).
   { intros x. rewrite Z.shiftl_mul_pow2 by lia. rewrite <- param_B. reflexivity. }
   rewrite !Hsh.
-  rewrite (u32_small (B32 mod p * B32)) by nia.
+  rewrite (u32_small (B32 mod p * B32)) by (apply (mulB_small _ p); assumption).
   assert (E2 : (B32 mod p * B32) mod p = (B32 * B32) mod p) by (apply Z.mul_mod_idemp_l; lia).
-  rewrite E2.
+  rewrite E2. clear E2.
   assert (HB2 : 0 <= (B32 * B32) mod p < p) by (apply Z.mod_pos_bound; lia).
   rewrite (u32_small ((B32 * B32) mod p)) by lia.
-  rewrite (u32_small ((B32 * B32) mod p * B32)) by nia.
+  rewrite (u32_small ((B32 * B32) mod p * B32)) by (apply (mulB_small _ p); assumption).
   assert (E3 : ((B32 * B32) mod p * B32) mod p = (B32 * B32 * B32) mod p) by (apply Z.mul_mod_idemp_l; lia).
-  rewrite E3.
+  rewrite E3. clear E3.
   assert (HB3 : 0 <= (B32 * B32 * B32) mod p < p) by (apply Z.mod_pos_bound; lia).
   rewrite (u32_small ((B32 * B32 * B32) mod p)) by lia.
   assert (Hg : Z.gcd B32 p = 1) by (rewrite param_B; apply gcd_odd_pow2; [lia | apply Hadm]).
-  destruct (invext_spec u32 (W32 - 1) p B32 (proj1 u32_s32_small_facts) ltac:(rewrite W32_eq in *; unfold B32 in *; lia) ltac:(lia) Hg)
+  destruct (invext_spec u32 (W32 - 1) p B32 (proj1 u32_s32_small_facts) ltac:(lia) ltac:(lia) Hg)
     as (x & Ex & Hx & Hc).
   rewrite Ex.
   assert (Hx0 : x <> 0).
-  { intros ->. unfold eqm in Hc. rewrite Z.mul_0_l in Hc. rewrite Z.mod_0_l, Z.mod_1_l in Hc by (unfold B32; lia). discriminate. }
-  rewrite (u32_small (B32 - x)) by lia.
+  { intros ->. unfold eqm in Hc. rewrite Z.mul_0_l in Hc. rewrite Z.mod_0_l, Z.mod_1_l in Hc by lia. discriminate. }
   rewrite (u32_small (p - B32 mod p)) by lia.
+  clear HB2 HB3.
+  rewrite (u32_small (B32 - x)) by lia.
   eexists. split; [reflexivity|]. split; [reflexivity|].
   constructor; cbn [m_p m_Bp m_B2p m_B3p m_nim m_one m_mOne]; try reflexivity; try exact Hadm; try lia.
   change (eqm B32 (p * (B32 - x) + 1) 0).
   replace (p * (B32 - x) + 1) with (B32 * p - x * p + 1) by ring.
   rewrite (eqm_mul_n_l B32 p). rewrite Hc. reflexivity.
+Qed.
+
+(* ------------------------------------------------------------------ the six reductions are REDC over Z *)
+Lemma land_mask z : Z.land z MASK32 = z mod B32.
+Proof. rewrite param_mask, param_B. apply Z.land_ones. pose proof param_halfbits. lia. Qed.
+Lemma shiftr_B z : Z.shiftr z HALF_BITS32 = z / B32.
+Proof. rewrite param_B. apply Z.shiftr_div_pow2. pose proof param_halfbits. lia. Qed.
+Lemma B_divides_W : (B32 | W32).
+Proof. exists B32. reflexivity. Qed.
+Lemma u32_mod_B z : (u32 z) mod B32 = z mod B32.
+Proof. unfold u32. symmetry. apply Zmod_div_mod; [apply param_B_pos | reflexivity | apply B_divides_W]. Qed.
+
+Section Ring32Proofs.
+  Variable F : mg32.
+  Hypothesis HF : wf32 F.
+  Let p := m_p F.
+  Let nim := m_nim F.
+
+  Local Notation Bi := (Binv B32 p nim).
+  Local Notation fm := (from_mg B32 p nim).
+
+  Lemma Hadm : admissible p. Proof. apply HF. Qed.
+  Lemma Hp3 : 3 <= p. Proof. apply (adm_bounds p Hadm). Qed.
+  Lemma Hp0 : 0 < p. Proof. pose proof Hp3. lia. Qed.
+  Lemma HpB : p < B32. Proof. apply (adm_bounds p Hadm). Qed.
+  Lemma HB : 0 < B32. Proof. apply param_B_pos. Qed.
+  Lemma Hp1 : (p * nim + 1) mod B32 = 0. Proof. apply HF. Qed.
+  Lemma Hnim : 0 <= nim < B32. Proof. apply HF. Qed.
+
+  (* the header's bound, from p <= maxCardinality() *)
+  Lemma bound32 c : 0 <= c <= (p - 1) * (p - 1) -> c + (B32 - 1) * p < W32 /\ c < p * B32.
+  Proof.
+    intros Hc. pose proof Hp3. pose proof HpB. pose proof param_bound as Hb. pose proof HB.
+    destruct Hadm as [[_ Hm] _]. fold p in Hm.
+    assert ((p - 1) * (p - 1) <= (maxCardinality32 - 1) * (maxCardinality32 - 1)) by (apply Z.mul_le_mono_nonneg; lia).
+    assert ((B32 - 1) * p <= (B32 - 1) * maxCardinality32) by (apply Z.mul_le_mono_nonneg_l; lia).
+    split; [lia|]. nia.
+  Qed.
+
+  Lemma canon_sq a b : 0 <= a < p -> 0 <= b < p -> 0 <= a * b <= (p - 1) * (p - 1).
+  Proof. intros Ha Hb. split; [nia|]. apply Z.mul_le_mono_nonneg; lia. Qed.
+  Lemma canon_le_sq a : 0 <= a < p -> 0 <= a <= (p - 1) * (p - 1).
+  Proof. intros Ha. pose proof Hp3. nia. Qed.
+
+  (* the multiplier, in the two ways the code computes it *)
+  Lemma mfac_masked c : 0 <= c < W32 ->
+    Z.land (u32 (u32 (Z.land c MASK32) * nim)) MASK32 = mfac B32 nim c.
+  Proof.
+    intros Hc. rewrite !land_mask. rewrite u32_mod_B. unfold mfac.
+    rewrite (u32_small (c mod B32)); [reflexivity|].
+    pose proof (Z.mod_pos_bound c B32 HB). pose proof param_B_lt_W. lia.
+  Qed.
+  Lemma mfac_unmasked c : Z.land (u32 (c * nim)) MASK32 = mfac B32 nim c.
+  Proof.
+    rewrite land_mask. rewrite u32_mod_B. unfold mfac. symmetry. apply Z.mul_mod_idemp_l. pose proof HB. lia.
+  Qed.
+  Lemma mfac_small c : 0 <= mfac B32 nim c < B32.
+  Proof. unfold mfac. apply Z.mod_pos_bound. apply HB. Qed.
+
+  Lemma core c : 0 <= c -> c + (B32 - 1) * p < W32 ->
+    Z.shiftr (u32 (c + u32 (mfac B32 nim c * p))) HALF_BITS32 = redc_t B32 p nim c.
+  Proof.
+    intros Hc Hb. pose proof (mfac_small c) as Hm. pose proof Hp0.
+    assert (0 <= mfac B32 nim c * p <= (B32 - 1) * p) by (split; [nia | apply Z.mul_le_mono_nonneg_r; lia]).
+    rewrite (u32_small (mfac B32 nim c * p)) by lia.
+    rewrite u32_small by lia. rewrite shiftr_B. reflexivity.
+  Qed.
+
+  Lemma csub_redc_z c : 0 <= c < p * B32 -> csub F (redc_t B32 p nim c) = redc_z B32 p nim c.
+  Proof.
+    intros Hc. pose proof (redc_t_range B32 p nim HB Hp0 Hp1 c Hc) as Ht.
+    unfold csub, redc_z. fold p. cbv zeta. destruct (Z.leb_spec p (redc_t B32 p nim c)); [|reflexivity].
+    apply u32_small. pose proof HpB. pose proof param_B_lt_W. lia.
+  Qed.
+
+  Definition in_range (c : Z) : Prop := 0 <= c <= (p - 1) * (p - 1).
+
+  Lemma range_W c : in_range c -> 0 <= c < W32.
+  Proof.
+    intros Hc. destruct (bound32 c Hc). unfold in_range in Hc. pose proof HB. pose proof Hp0.
+    assert (0 <= (B32 - 1) * p) by (apply Z.mul_nonneg_nonneg; lia). lia.
+  Qed.
+
+  Theorem redc_fm c : in_range c -> redc F c = fm c.
+  Proof.
+    intros Hc. destruct (bound32 c Hc) as [Hb1 Hb2]. pose proof (range_W c Hc) as HcW.
+    unfold redc. fold p nim. cbv zeta.
+    rewrite (mfac_masked c HcW).
+    replace (u32 (mfac B32 nim c * p) + c) with (c + u32 (mfac B32 nim c * p)) by ring.
+    rewrite core by lia. rewrite csub_redc_z by lia. apply redc_z_spec; [apply HB | apply Hp0 | apply Hp1 | lia].
+  Qed.
+
+  Theorem redcal_fm c : in_range c -> redcal F c = fm c.
+  Proof.
+    intros Hc. destruct (bound32 c Hc) as [Hb1 Hb2]. pose proof (range_W c Hc) as HcW.
+    unfold redcal. fold p nim. cbv zeta.
+    rewrite (mfac_masked c HcW). rewrite (u32_small (mfac B32 nim c)) by (pose proof (mfac_small c); pose proof param_B_lt_W; lia).
+    rewrite core by lia. rewrite csub_redc_z by lia. apply redc_z_spec; [apply HB | apply Hp0 | apply Hp1 | lia].
+  Qed.
+
+  Theorem redcin_fm c : in_range c -> redcin F c = fm c.
+  Proof.
+    intros Hc. destruct (bound32 c Hc) as [Hb1 Hb2]. pose proof (range_W c Hc) as HcW.
+    unfold redcin. fold p nim. cbv zeta.
+    rewrite (mfac_masked c HcW). rewrite (u32_small (mfac B32 nim c)) by (pose proof (mfac_small c); pose proof param_B_lt_W; lia).
+    rewrite core by lia. rewrite csub_redc_z by lia. apply redc_z_spec; [apply HB | apply Hp0 | apply Hp1 | lia].
+  Qed.
+
+  Theorem redcsal_fm c : in_range c -> redcsal F c = fm c.
+  Proof.
+    intros Hc. destruct (bound32 c Hc) as [Hb1 Hb2]. pose proof (range_W c Hc) as HcW.
+    unfold redcsal. fold p nim. cbv zeta.
+    rewrite (mfac_unmasked c). rewrite (u32_small (mfac B32 nim c)) by (pose proof (mfac_small c); pose proof param_B_lt_W; lia).
+    rewrite core by lia. rewrite csub_redc_z by lia. apply redc_z_spec; [apply HB | apply Hp0 | apply Hp1 | lia].
+  Qed.
+
+  Theorem redcs_fm c : in_range c -> redcs F c = fm c.
+  Proof.
+    intros Hc. destruct (bound32 c Hc) as [Hb1 Hb2]. pose proof (range_W c Hc) as HcW.
+    unfold redcs. fold p nim. cbv zeta.
+    rewrite (mfac_unmasked c). rewrite (u32_small (mfac B32 nim c)) by (pose proof (mfac_small c); pose proof param_B_lt_W; lia).
+    rewrite core by lia. rewrite csub_redc_z by lia. apply redc_z_spec; [apply HB | apply Hp0 | apply Hp1 | lia].
+  Qed.
+
+  Theorem redcsin_fm c : in_range c -> redcsin F c = fm c.
+  Proof.
+    intros Hc. destruct (bound32 c Hc) as [Hb1 Hb2]. pose proof (range_W c Hc) as HcW.
+    unfold redcsin. fold p nim. cbv zeta.
+    rewrite (mfac_unmasked c). rewrite (u32_small (mfac B32 nim c)) by (pose proof (mfac_small c); pose proof param_B_lt_W; lia).
+    rewrite core by lia. rewrite csub_redc_z by lia. apply redc_z_spec; [apply HB | apply Hp0 | apply Hp1 | lia].
+  Qed.
+End Ring32Proofs.
+
+(* ------------------------------------------------------------------ every operation, on the representation *)
+Section Ring32Ops.
+  Variable F : mg32.
+  Hypothesis HF : wf32 F.
+  Local Notation p := (m_p F).
+  Local Notation nim := (m_nim F).
+  Local Notation Bi := (Binv B32 p nim).
+  Local Notation fm := (from_mg B32 p nim).
+  Local Notation V := (convert F).
+  Local Notation can := (canon p).
+
+  Let hB := HB.
+  Let hp0 := Hp0 F HF.
+  Let hp1 := Hp1 F HF.
+  Let hp3 := Hp3 F HF.
+  Let hpB := HpB F HF.
+
+  Lemma p_lt_W : 2 * p < W32.
+  Proof. pose proof hpB. pose proof param_B_word. pose proof hp3.  nia. Qed.
+
+  Lemma fm_can c : can (fm c).
+  Proof. apply from_mg_range. apply hp0. Qed.
+  Lemma mod_can z : can (z mod p).
+  Proof. apply Z.mod_pos_bound. apply hp0. Qed.
+
+  Lemma convert_fm a : can a -> V a = fm a.
+  Proof. intros Ha. unfold convert. apply (redc_fm F HF). apply (canon_le_sq F HF). exact Ha. Qed.
+
+  Lemma sq_W a b : can a -> can b -> u32 (a * b) = a * b /\ in_range F (a * b).
+  Proof.
+    intros Ha Hb. pose proof (canon_sq F a b Ha Hb) as Hs. split; [|exact Hs].
+    apply u32_small. apply (range_W F HF). exact Hs.
+  Qed.
+
+  Lemma mul_raw a b : can a -> can b -> mul32 F a b = fm (a * b).
+  Proof. intros Ha Hb. destruct (sq_W a b Ha Hb) as [E R]. unfold mul32. rewrite E. apply (redc_fm F HF _ R). Qed.
+  Lemma mulin_raw a b : can a -> can b -> mulin F a b = fm (a * b).
+  Proof. intros Ha Hb. destruct (sq_W a b Ha Hb) as [E R]. unfold mulin. rewrite E. apply (redcin_fm F HF _ R). Qed.
+
+  Lemma csub_mod r : 0 <= r < 2 * p -> (if r <? p then r else u32 (r - p)) = r mod p.
+  Proof.
+    intros Hr. pose proof p_lt_W. destruct (Z.ltb_spec r p).
+    - symmetry. apply Z.mod_small. lia.
+    - rewrite u32_small by lia. apply eqm_to_mod; [|lia].
+      replace (r - p) with (r - p * 1) by ring. rewrite (eqm_mul_n_l p 1). rewrite Z.sub_0_r. reflexivity.
+  Qed.
+
+  Lemma add_raw a b : can a -> can b -> add32 F a b = (a + b) mod p.
+  Proof.
+    intros Ha Hb. pose proof p_lt_W. unfold add32.  cbv zeta. unfold canon in *.
+    rewrite (u32_small (a + b)) by lia. apply csub_mod. lia.
+  Qed.
+  Lemma addin_raw a b : can a -> can b -> addin F a b = (a + b) mod p.
+  Proof. exact (add_raw a b). Qed.
+
+  Lemma sub_raw a b : can a -> can b -> sub32 F a b = (a - b) mod p.
+  Proof.
+    intros Ha Hb. pose proof p_lt_W. unfold sub32.  unfold canon in *.
+    rewrite (sub_mod_cases p a b Ha Hb). destruct (Z.leb_spec b a).
+    - apply u32_small. lia.
+    - rewrite (u32_small (p - b)) by lia. apply u32_small. lia.
+  Qed.
+  Lemma subin_raw a b : can a -> can b -> subin F a b = (a - b) mod p.
+  Proof.
+    intros Ha Hb. pose proof p_lt_W. unfold subin.  unfold canon in *.
+    rewrite (sub_mod_cases p a b Ha Hb). destruct (Z.ltb_spec a b); destruct (Z.leb_spec b a); try lia.
+    - rewrite (u32_small (p - b)) by lia. rewrite u32_small by lia. ring.
+    - apply u32_small. lia.
+  Qed.
+
+  Lemma neg_raw a : can a -> neg F a = (- a) mod p.
+  Proof.
+    intros Ha. pose proof p_lt_W. unfold neg.  unfold canon in *.
+    rewrite (opp_mod_cases p a Ha). destruct (Z.eqb_spec a 0); [reflexivity|]. apply u32_small. lia.
+  Qed.
+  Lemma negin_raw a : can a -> negin F a = (- a) mod p.
+  Proof. exact (neg_raw a). Qed.
+
+  Lemma axpy_raw a b c : can a -> can b -> can c -> axpy F a b c = (fm (a * b) + c) mod p.
+  Proof.
+    intros Ha Hb Hc. destruct (sq_W a b Ha Hb) as [E R]. pose proof p_lt_W. pose proof (fm_can (a * b)) as Hm.
+    unfold axpy.  cbv zeta. rewrite E. rewrite (redcal_fm F HF _ R). unfold canon in *.
+    rewrite (u32_small (fm (a * b) + c)) by lia. apply csub_mod. lia.
+  Qed.
+  Lemma axpyin_raw r a b : can r -> can a -> can b -> axpyin F r a b = (r + fm (a * b)) mod p.
+  Proof.
+    intros Hr Ha Hb. destruct (sq_W a b Ha Hb) as [E R]. pose proof p_lt_W. pose proof (fm_can (a * b)) as Hm.
+    unfold axpyin.  cbv zeta. rewrite E. rewrite (redcal_fm F HF _ R). unfold canon in *.
+    rewrite (u32_small (r + fm (a * b))) by lia. apply csub_mod. lia.
+  Qed.
+  Lemma axmy_raw a b c : can a -> can b -> can c -> axmy F a b c = (fm (a * b) - c) mod p.
+  Proof. intros Ha Hb Hc. unfold axmy. rewrite mul_raw by assumption. apply subin_raw; [apply fm_can | exact Hc]. Qed.
+  Lemma maxpy_raw a b c : can a -> can b -> can c -> maxpy F a b c = (c - fm (a * b)) mod p.
+  Proof. intros Ha Hb Hc. unfold maxpy. rewrite mul_raw by assumption. apply sub_raw; [exact Hc | apply fm_can]. Qed.
+  Lemma maxpyin_raw r a b : can r -> can a -> can b -> maxpyin F r a b = (r - fm (a * b)) mod p.
+  Proof. intros Hr Ha Hb. unfold maxpyin. rewrite mul_raw by assumption. apply subin_raw; [exact Hr | apply fm_can]. Qed.
+  Lemma axmyin_raw r a b : can r -> can a -> can b -> axmyin F r a b = (- ((r - fm (a * b)) mod p)) mod p.
+  Proof. intros Hr Ha Hb. unfold axmyin. rewrite maxpyin_raw by assumption. apply negin_raw. apply mod_can. Qed.
+
+  (* ---- the converted-out value V = convert commutes with every operation *)
+  Lemma V_mod_add a b : V ((a + b) mod p) = (fm a + fm b) mod p.
+  Proof. rewrite convert_fm by apply mod_can. apply from_mg_add. Qed.
+  Lemma V_mod_sub a b : V ((a - b) mod p) = (fm a - fm b) mod p.
+  Proof. rewrite convert_fm by apply mod_can. apply from_mg_sub. Qed.
+  Lemma V_mod_opp a : V ((- a) mod p) = (- fm a) mod p.
+  Proof. rewrite convert_fm by apply mod_can. apply from_mg_opp. Qed.
+  Lemma fm_fm_mul a b : fm (fm (a * b)) = (fm a * fm b) mod p.
+  Proof. exact (from_mg_mul B32 p nim a b). Qed.
+
+  Theorem mul_ok a b : can a -> can b -> can (mul32 F a b) /\ V (mul32 F a b) = (V a * V b) mod p.
+  Proof.
+    intros Ha Hb. rewrite mul_raw by assumption. split; [apply fm_can|].
+    rewrite (convert_fm (fm (a * b))) by apply fm_can. rewrite !convert_fm by assumption. apply fm_fm_mul.
+  Qed.
+  Theorem mulin_ok a b : can a -> can b -> can (mulin F a b) /\ V (mulin F a b) = (V a * V b) mod p.
+  Proof. intros Ha Hb. rewrite mulin_raw, <- mul_raw by assumption. apply mul_ok; assumption. Qed.
+  Theorem add_ok a b : can a -> can b -> can (add32 F a b) /\ V (add32 F a b) = (V a + V b) mod p.
+  Proof. intros Ha Hb. rewrite add_raw by assumption. split; [apply mod_can|]. rewrite (convert_fm a), (convert_fm b) by assumption. apply V_mod_add. Qed.
+  Theorem addin_ok a b : can a -> can b -> can (addin F a b) /\ V (addin F a b) = (V a + V b) mod p.
+  Proof. exact (add_ok a b). Qed.
+  Theorem sub_ok a b : can a -> can b -> can (sub32 F a b) /\ V (sub32 F a b) = (V a - V b) mod p.
+  Proof. intros Ha Hb. rewrite sub_raw by assumption. split; [apply mod_can|]. rewrite (convert_fm a), (convert_fm b) by assumption. apply V_mod_sub. Qed.
+  Theorem subin_ok a b : can a -> can b -> can (subin F a b) /\ V (subin F a b) = (V a - V b) mod p.
+  Proof. intros Ha Hb. rewrite subin_raw by assumption. split; [apply mod_can|]. rewrite (convert_fm a), (convert_fm b) by assumption. apply V_mod_sub. Qed.
+  Theorem neg_ok a : can a -> can (neg F a) /\ V (neg F a) = (- V a) mod p.
+  Proof. intros Ha. rewrite neg_raw by assumption. split; [apply mod_can|]. rewrite (convert_fm a) by assumption. apply V_mod_opp. Qed.
+  Theorem negin_ok a : can a -> can (negin F a) /\ V (negin F a) = (- V a) mod p.
+  Proof. exact (neg_ok a). Qed.
+
+  Theorem axpy_ok a b c : can a -> can b -> can c -> can (axpy F a b c) /\ V (axpy F a b c) = (V a * V b + V c) mod p.
+  Proof.
+    intros Ha Hb Hc. rewrite axpy_raw by assumption. split; [apply mod_can|]. rewrite V_mod_add, fm_fm_mul.
+    rewrite !convert_fm by assumption. apply Z.add_mod_idemp_l. pose proof hp0.  lia.
+  Qed.
+  Theorem axpyin_ok r a b : can r -> can a -> can b -> can (axpyin F r a b) /\ V (axpyin F r a b) = (V r + V a * V b) mod p.
+  Proof.
+    intros Hr Ha Hb. rewrite axpyin_raw by assumption. split; [apply mod_can|]. rewrite V_mod_add, fm_fm_mul.
+    rewrite !convert_fm by assumption. apply Z.add_mod_idemp_r. pose proof hp0.  lia.
+  Qed.
+  Theorem axmy_ok a b c : can a -> can b -> can c -> can (axmy F a b c) /\ V (axmy F a b c) = (V a * V b - V c) mod p.
+  Proof.
+    intros Ha Hb Hc. rewrite axmy_raw by assumption. split; [apply mod_can|]. rewrite V_mod_sub, fm_fm_mul.
+    rewrite !convert_fm by assumption. apply Zminus_mod_idemp_l.
+  Qed.
+  Theorem maxpy_ok a b c : can a -> can b -> can c -> can (maxpy F a b c) /\ V (maxpy F a b c) = (V c - V a * V b) mod p.
+  Proof.
+    intros Ha Hb Hc. rewrite maxpy_raw by assumption. split; [apply mod_can|]. rewrite V_mod_sub, fm_fm_mul.
+    rewrite !convert_fm by assumption. apply Zminus_mod_idemp_r.
+  Qed.
+  Theorem maxpyin_ok r a b : can r -> can a -> can b -> can (maxpyin F r a b) /\ V (maxpyin F r a b) = (V r - V a * V b) mod p.
+  Proof.
+    intros Hr Ha Hb. rewrite maxpyin_raw by assumption. split; [apply mod_can|]. rewrite V_mod_sub, fm_fm_mul.
+    rewrite !convert_fm by assumption. apply Zminus_mod_idemp_r.
+  Qed.
+  Theorem axmyin_ok r a b : can r -> can a -> can b -> can (axmyin F r a b) /\ V (axmyin F r a b) = (V a * V b - V r) mod p.
+  Proof.
+    intros Hr Ha Hb. rewrite axmyin_raw by assumption. split; [apply mod_can|]. rewrite V_mod_opp.
+    rewrite <- (convert_fm ((r - fm (a * b)) mod p)) by apply mod_can. rewrite V_mod_sub, fm_fm_mul.
+    rewrite !convert_fm by assumption.
+    change (eqm p (- ((fm r - (fm a * fm b) mod p) mod p)) (fm a * fm b - fm r)).
+    rewrite !mod_eqm. replace (- (fm r - fm a * fm b)) with (fm a * fm b - fm r) by ring. reflexivity.
+  Qed.
+End Ring32Ops.
+
+(* ------------------------------------------------------------------ inverse, division, init / convert, constants *)
+Section Ring32Inv.
+  Variable F : mg32.
+  Hypothesis HF : wf32 F.
+  Local Notation p := (m_p F).
+  Local Notation nim := (m_nim F).
+  Local Notation Bi := (Binv B32 p nim).
+  Local Notation fm := (from_mg B32 p nim).
+  Local Notation V := (convert F).
+  Local Notation can := (canon p).
+  Let hB := HB.
+  Let hp0 := Hp0 F HF.
+  Let hp1 := Hp1 F HF.
+  Let hp3 := Hp3 F HF.
+  Let hpB := HpB F HF.
+
+  Lemma BBi : eqm p (B32 * Bi) 1.
+  Proof. apply B_Binv_eqm; [apply hB | apply hp1]. Qed.
+
+  Lemma p_small_s32 : p <= 2147483647.
+  Proof. pose proof hpB. pose proof param_B_lt_W. rewrite W32_eq in *. unfold B32 in *. lia. Qed.
+
+  Theorem inv_ok a : can a -> Z.gcd a p = 1 ->
+    exists r, inv F a = Some r /\ can r /\ (V r * V a) mod p = 1.
+  Proof.
+    intros Ha Hg. pose proof p_small_s32 as Hs. pose proof hp3. unfold canon in Ha.
+    unfold inv. rewrite (s32_small a) by lia. rewrite (s32_small p) by lia.
+    destruct (invext_spec s32 2147483647 a p (proj2 u32_s32_small_facts) ltac:(lia) ltac:(lia) ltac:(rewrite Z.gcd_comm; exact Hg))
+      as (t & Et & Ht & Hc).
+    rewrite Et. destruct (Z.ltb_spec t 0); [lia|].
+    assert (Hb3 : can (m_B3p F)) by (rewrite (wf_B3p F HF); apply Z.mod_pos_bound; lia).
+    pose proof (p_lt_W F HF) as HpW.
+    rewrite (u32_small t) by lia.
+    destruct (sq_W F HF t (m_B3p F) Ht Hb3) as [E R]. rewrite E. rewrite (redc_fm F HF _ R).
+    eexists. split; [reflexivity|]. split; [apply (fm_can F HF)|].
+    rewrite (convert_fm F HF (fm (t * m_B3p F))) by apply (fm_can F HF). rewrite (convert_fm F HF a) by exact Ha.
+    transitivity (1 mod p); [|apply Z.mod_1_l; lia].
+    change (eqm p (fm (fm (t * m_B3p F)) * fm a) 1).
+    rewrite !from_mg_eqm. rewrite (wf_B3p F HF). rewrite (mod_eqm p (B32 * B32 * B32)).
+    replace (t * (B32 * B32 * B32) * Bi * Bi * (a * Bi)) with ((t * a) * ((B32 * Bi) * (B32 * Bi) * (B32 * Bi))) by ring.
+    rewrite BBi, Hc. reflexivity.
+  Qed.
+
+  Theorem div_ok a b : can a -> can b -> Z.gcd b p = 1 ->
+    exists q, div32 F a b = Some q /\ can q /\ (V q * V b) mod p = V a.
+  Proof.
+    intros Ha Hb Hg. destruct (inv_ok b Hb Hg) as (r & Er & Hr & Hi). pose proof hp3.
+    unfold div32. rewrite Er. eexists. split; [reflexivity|].
+    destruct (mulin_ok F HF r a Hr Ha) as [Hc Hv]. split; [exact Hc|]. rewrite Hv.
+    rewrite Z.mul_mod_idemp_l by lia. replace (V r * V a * V b) with (V a * (V r * V b)) by ring.
+    rewrite <- Z.mul_mod_idemp_r by lia. rewrite Hi. rewrite Z.mul_1_r.
+    rewrite (convert_fm F HF a Ha). apply Z.mod_small. apply (fm_can F HF).
+  Qed.
+  Theorem divin_ok a b : can a -> can b -> Z.gcd b p = 1 ->
+    exists q, divin F a b = Some q /\ can q /\ (V q * V b) mod p = V a.
+  Proof.
+    intros Ha Hb Hg. destruct (inv_ok b Hb Hg) as (r & Er & Hr & Hi). pose proof hp3.
+    unfold divin. rewrite Er. eexists. split; [reflexivity|].
+    destruct (mulin_ok F HF a r Ha Hr) as [Hc Hv]. split; [exact Hc|]. rewrite Hv.
+    rewrite Z.mul_mod_idemp_l by lia. replace (V a * V r * V b) with (V a * (V r * V b)) by ring.
+    rewrite <- Z.mul_mod_idemp_r by lia. rewrite Hi. rewrite Z.mul_1_r.
+    rewrite (convert_fm F HF a Ha). apply Z.mod_small. apply (fm_can F HF).
+  Qed.
+
+  (* isUnit on the stored element; gcd(stored, p) = gcd(value, p) because B is invertible modulo p *)
+  Theorem isUnit_ok a : can a -> isUnit F a = Some (Z.gcd a p =? 1).
+  Proof.
+    intros Ha. pose proof p_small_s32 as Hs. pose proof hp3. unfold canon in Ha.
+    unfold isUnit. rewrite (s32_small a) by lia. rewrite (s32_small p) by lia.
+    destruct (extended_euclid_spec s32 2147483647 (proj2 u32_s32_small_facts) a p ltac:(lia) (Z.gcd p a) ltac:(lia) eq_refl)
+      as (x & E & _ & _).
+    rewrite E. f_equal. rewrite (Z.gcd_comm a p). pose proof (Z.gcd_nonneg p a).
+    destruct (Z.eqb_spec (Z.gcd p a) 1); destruct (Z.eqb_spec (Z.gcd p a) (-1)); try reflexivity; lia.
+  Qed.
+
+  (* ---- init (on [0,p), the range C07 speaks about) and convert *)
+  Lemma init_tail_ok x : can x -> can (init_tail F false x) /\ V (init_tail F false x) = x.
+  Proof.
+    intros Hx. pose proof hp3.
+    assert (Hb2 : can (m_B2p F)) by (rewrite (wf_B2p F HF); apply Z.mod_pos_bound; lia).
+    unfold init_tail. destruct (sq_W F HF x (m_B2p F) Hx Hb2) as [E R]. rewrite E. rewrite (redc_fm F HF _ R).
+    split; [apply (fm_can F HF)|].
+    rewrite (convert_fm F HF (fm (x * m_B2p F))) by apply (fm_can F HF).
+    apply (eqm_small p); [|apply (fm_can F HF)|exact Hx].
+    rewrite !from_mg_eqm. rewrite (wf_B2p F HF). rewrite (mod_eqm p (B32 * B32)).
+    replace (x * (B32 * B32) * Bi * Bi) with (x * ((B32 * Bi) * (B32 * Bi))) by ring.
+    rewrite BBi. rewrite !Z.mul_1_r. reflexivity.
+  Qed.
+
+  Definition Init_identity (f : mg32 -> Z -> Z) : Prop := forall x, can x -> can (f F x) /\ V (f F x) = x.
+
+  Lemma ltb_neg x : can x -> (x <? 0) = false.
+  Proof. intros Hx. unfold canon in Hx. apply Z.ltb_ge. lia. Qed.
+
+  Theorem init_double_id : Init_identity init_double.
+  Proof.
+    intros x Hx. unfold init_double. rewrite (ltb_neg x Hx). unfold canon in Hx. rewrite Z.abs_eq by lia.
+    rewrite Z.rem_small by lia. rewrite u32_small by (pose proof (p_lt_W F HF); lia). apply init_tail_ok. exact Hx.
+  Qed.
+  Theorem init_int64_id : Init_identity init_int64.
+  Proof.
+    intros x Hx. unfold init_int64. rewrite (ltb_neg x Hx). unfold canon in Hx. pose proof p_small_s32.
+    assert (Es : s64 p = p) by (unfold s64, W64; rewrite Z.mod_small by lia; lia).
+    rewrite Es. rewrite Z.rem_small by lia. rewrite u32_small by (pose proof (p_lt_W F HF); lia). apply init_tail_ok. exact Hx.
+  Qed.
+  Theorem init_uint64_id : Init_identity init_uint64.
+  Proof.
+    intros x Hx. unfold init_uint64. unfold canon in Hx. pose proof p_small_s32.
+    assert (Es : u64 p = p) by (unfold u64, W64; apply Z.mod_small; lia).
+    rewrite Es. rewrite Z.mod_small by lia. rewrite u32_small by (pose proof (p_lt_W F HF); lia). apply init_tail_ok. exact Hx.
+  Qed.
+  Theorem init_integer_id : Init_identity init_integer.
+  Proof.
+    intros x Hx. unfold init_integer. rewrite (ltb_neg x Hx). unfold canon in Hx. rewrite Z.abs_eq by lia.
+    rewrite Z.mod_small by lia. rewrite u32_small by (pose proof (p_lt_W F HF); lia). apply init_tail_ok. exact Hx.
+  Qed.
+  Theorem init_int32_id : Init_identity init_int32.
+  Proof.
+    intros x Hx. unfold init_int32. rewrite (ltb_neg x Hx). unfold canon in Hx. pose proof (p_lt_W F HF).
+    rewrite (u32_small x) by lia. rewrite Z.mod_small by lia. rewrite u32_small by lia. apply init_tail_ok. exact Hx.
+  Qed.
+  Theorem init_uint32_id : Init_identity init_uint32.
+  Proof.
+    intros x Hx. unfold init_uint32. unfold canon in Hx. pose proof (p_lt_W F HF).
+    rewrite (u32_small x) by lia. rewrite Z.mod_small by lia. rewrite u32_small by lia. apply init_tail_ok. exact Hx.
+  Qed.
+  Theorem init_longlong_id : Init_identity init_longlong.
+  Proof.
+    intros x Hx. unfold init_longlong. rewrite (ltb_neg x Hx). unfold canon in Hx. pose proof (p_lt_W F HF).
+    rewrite (u32_small x) by lia. rewrite Z.mod_small by lia. rewrite u32_small by lia. apply init_tail_ok. exact Hx.
+  Qed.
+  Theorem init_ulonglong_id : Init_identity init_ulonglong.
+  Proof.
+    intros x Hx. unfold init_ulonglong. unfold canon in Hx. pose proof (p_lt_W F HF).
+    rewrite (u32_small x) by lia. rewrite Z.mod_small by lia. rewrite u32_small by lia. apply init_tail_ok. exact Hx.
+  Qed.
+
+  (* convert is a bijection of [0,p): init after convert gives the element back *)
+  Theorem convert_init a : can a -> can (V a) /\ init_uint32 F (V a) = a.
+  Proof.
+    intros Ha. rewrite (convert_fm F HF a Ha). pose proof (fm_can F HF a) as Hc. split; [exact Hc|].
+    destruct (init_uint32_id (fm a) Hc) as [H1 H2].
+    apply (from_mg_inj B32 p nim hB hp1); [exact H1 | exact Ha |].
+    rewrite <- (convert_fm F HF (init_uint32 F (fm a)) H1). exact H2.
+  Qed.
+
+  Theorem write_is_convert a : can a -> write_value F a = V a.
+  Proof.
+    intros Ha. unfold write_value, convert. rewrite (redcs_fm F HF), (redc_fm F HF) by (apply (canon_le_sq F HF); exact Ha). reflexivity.
+  Qed.
+
+  (* ---- the constants zero, one, mOne and the predicates *)
+  Lemma Bp_nonzero : B32 mod p <> 0.
+  Proof.
+    intros E. pose proof BBi as H. pose proof hp3.
+    assert (E' : eqm p B32 0) by (unfold eqm; rewrite E; symmetry; apply Z.mod_0_l; lia).
+    assert (H2 : eqm p (0 * Bi) 1).
+    { transitivity (B32 * Bi); [apply mul_eqm; [symmetry; exact E' | reflexivity] | exact H]. }
+    rewrite Z.mul_0_l in H2. unfold eqm in H2. rewrite Z.mod_0_l, Z.mod_1_l in H2 by lia. discriminate.
+  Qed.
+
+  Theorem constants_ok :
+    can (m_one F) /\ V (m_one F) = 1 /\ can (m_mOne F) /\ V (m_mOne F) = p - 1 /\ V 0 = 0 /\ init0 = 0.
+  Proof.
+    pose proof hp3. pose proof Bp_nonzero as Hnz. pose proof (Z.mod_pos_bound B32 p ltac:(lia)) as Hr.
+    assert (C1 : can (m_one F)) by (rewrite (wf_one F HF); exact Hr).
+    assert (Cm : can (m_mOne F)) by (rewrite (wf_mOne F HF); unfold canon; lia).
+    assert (V1 : V (m_one F) = 1).
+    { rewrite (convert_fm F HF _ C1). rewrite (wf_one F HF). rewrite (from_mg_B B32 p nim hB hp1). apply Z.mod_1_l. lia. }
+    split; [exact C1|]. split; [exact V1|]. split; [exact Cm|]. split.
+    - rewrite (convert_fm F HF _ Cm). rewrite (wf_mOne F HF).
+      apply (eqm_small p); [|apply (fm_can F HF)|lia].
+      rewrite from_mg_eqm. replace ((p - B32 mod p) * Bi) with (p * Bi - (B32 mod p) * Bi) by ring.
+      rewrite (eqm_mul_n_l p Bi). rewrite (mod_eqm p B32). rewrite BBi.
+      replace (p - 1) with (p * 1 + (0 - 1)) by ring. rewrite (eqm_mul_n_l p 1). reflexivity.
+    - split; [|reflexivity]. rewrite (convert_fm F HF 0) by (unfold canon; lia). apply from_mg_0.
+  Qed.
+
+  Lemma V_inj a b : can a -> can b -> V a = V b -> a = b.
+  Proof.
+    intros Ha Hb E. rewrite !(convert_fm F HF) in E by assumption.
+    apply (from_mg_inj B32 p nim hB hp1 a b Ha Hb E).
+  Qed.
+
+  Theorem predicates_ok a b : can a -> can b ->
+    isZero a = (V a =? 0) /\ isOne F a = (V a =? 1) /\ isMOne F a = (V a =? p - 1) /\ areEqual a b = (V a =? V b).
+  Proof.
+    intros Ha Hb. destruct constants_ok as (C1 & V1 & Cm & Vm & V0 & _).
+    assert (C0 : can 0) by (pose proof hp3; unfold canon; lia).
+    unfold isZero, isOne, isMOne, areEqual. repeat split.
+    - destruct (Z.eqb_spec a 0) as [Ea|N]; destruct (Z.eqb_spec (V a) 0) as [E|E]; try reflexivity.
+      + exfalso. apply E. rewrite Ea. exact V0.
+      + exfalso. apply N. apply V_inj; [exact Ha | exact C0 | congruence].
+    - destruct (Z.eqb_spec a (m_one F)) as [Ea|N]; destruct (Z.eqb_spec (V a) 1) as [E|E]; try reflexivity.
+      + exfalso. apply E. rewrite Ea. exact V1.
+      + exfalso. apply N. apply V_inj; [exact Ha | exact C1 | congruence].
+    - destruct (Z.eqb_spec a (m_mOne F)) as [Ea|N]; destruct (Z.eqb_spec (V a) (p - 1)) as [E|E]; try reflexivity.
+      + exfalso. apply E. rewrite Ea. exact Vm.
+      + exfalso. apply N. apply V_inj; [exact Ha | exact Cm | congruence].
+    - destruct (Z.eqb_spec a b) as [Ea|N]; destruct (Z.eqb_spec (V a) (V b)) as [E|E]; try reflexivity.
+      + exfalso. apply E. rewrite Ea. reflexivity.
+      + exfalso. apply N. apply V_inj; assumption.
+  Qed.
+End Ring32Inv.
+
+(* ================================================================== the statements exported to Properties.v *)
+(* A ring object: what the constructor returns for an admissible modulus (odd, 3 <= p <= maxCardinality()). *)
+Definition Ring32 (p : Z) (F : mg32) : Prop := admissible p /\ mk32 p = Some F.
+
+Lemma Ring32_wf p F : Ring32 p F -> m_p F = p /\ wf32 F.
+Proof.
+  intros [Ha E]. destruct (mk32_wf p Ha) as (F' & E' & Hp & Hw). rewrite E in E'. injection E' as ->. split; assumption.
+Qed.
+
+Example Ring32_satisfiable : exists F, Ring32 maxCardinality32 F.
+Proof.
+  assert (Ha : admissible maxCardinality32) by (split; [split; [discriminate | apply Z.le_refl] | reflexivity]).
+  destruct (mk32_wf _ Ha) as (F & E & _ & _). exists F. split; assumption.
+Qed.
+
+Definition M32_constructor_stmt : Prop := forall p, admissible p ->
+  exists F, mk32 p = Some F /\ m_p F = p /\
+    0 <= m_nim F < B32 /\ (p * m_nim F + 1) mod B32 = 0 /\
+    m_Bp F = B32 mod p /\ m_B2p F = (B32 * B32) mod p /\ m_B3p F = (B32 * B32 * B32) mod p /\
+    m_one F = B32 mod p /\ m_mOne F = p - B32 mod p /\ B32 mod p <> 0.
+Lemma M32_constructor : M32_constructor_stmt.
+Proof.
+  intros p Ha. destruct (mk32_wf p Ha) as (F & E & Hp & Hw). exists F. pose proof (Bp_nonzero F Hw) as Hnz.
+  destruct Hw as [_ H1 H2 H3 H4 H5 H6 H7]. rewrite Hp in *. repeat split; try assumption; lia.
+Qed.
+
+(* REDC: for every c the code can feed to a reduction (c <= (p-1)^2), all six variants return the one r in [0,p)
+   with r * B = c (mod p); no 32-bit intermediate wraps (that is inside the proof: bound32). *)
+Definition M32_reductions_stmt : Prop := forall p F, Ring32 p F -> forall c, 0 <= c <= (p - 1) * (p - 1) ->
+  let r := redc F c in
+  0 <= r < p /\ (r * B32) mod p = c mod p /\
+  redcal F c = r /\ redcsal F c = r /\ redcs F c = r /\ redcin F c = r /\ redcsin F c = r.
+Lemma M32_reductions : M32_reductions_stmt.
+Proof.
+  intros p F HR c Hc. destruct (Ring32_wf p F HR) as [<- HF]. cbv zeta.
+  rewrite (redc_fm F HF c Hc), (redcal_fm F HF c Hc), (redcsal_fm F HF c Hc), (redcs_fm F HF c Hc),
+    (redcin_fm F HF c Hc), (redcsin_fm F HF c Hc).
+  split; [apply (fm_can F HF)|]. split; [|repeat split; reflexivity].
+  apply (from_mg_eqm_B B32 (m_p F) (m_nim F) HB (Hp1 F HF)).
+Qed.
+
+Definition M32_ring_ops_stmt : Prop := forall p F, Ring32 p F ->
+  let V := convert F in forall a b, canon p a -> canon p b ->
+  (canon p (mul32 F a b) /\ V (mul32 F a b) = (V a * V b) mod p) /\
+  (canon p (mulin F a b) /\ V (mulin F a b) = (V a * V b) mod p) /\
+  (canon p (add32 F a b) /\ V (add32 F a b) = (V a + V b) mod p) /\
+  (canon p (addin F a b) /\ V (addin F a b) = (V a + V b) mod p) /\
+  (canon p (sub32 F a b) /\ V (sub32 F a b) = (V a - V b) mod p) /\
+  (canon p (subin F a b) /\ V (subin F a b) = (V a - V b) mod p) /\
+  (canon p (neg F a) /\ V (neg F a) = (- V a) mod p) /\
+  (canon p (negin F a) /\ V (negin F a) = (- V a) mod p).
+Lemma M32_ring_ops : M32_ring_ops_stmt.
+Proof.
+  intros p F HR V a b Ha Hb. destruct (Ring32_wf p F HR) as [<- HF]. subst V.
+  split; [apply (mul_ok F HF); assumption|]. split; [apply (mulin_ok F HF); assumption|].
+  split; [apply (add_ok F HF); assumption|]. split; [apply (addin_ok F HF); assumption|].
+  split; [apply (sub_ok F HF); assumption|]. split; [apply (subin_ok F HF); assumption|].
+  split; [apply (neg_ok F HF); assumption | apply (negin_ok F HF); assumption].
+Qed.
+
+Definition M32_fused_ops_stmt : Prop := forall p F, Ring32 p F ->
+  let V := convert F in forall a b c, canon p a -> canon p b -> canon p c ->
+  (canon p (axpy F a b c) /\ V (axpy F a b c) = (V a * V b + V c) mod p) /\
+  (canon p (axpyin F c a b) /\ V (axpyin F c a b) = (V c + V a * V b) mod p) /\
+  (canon p (axmy F a b c) /\ V (axmy F a b c) = (V a * V b - V c) mod p) /\
+  (canon p (axmyin F c a b) /\ V (axmyin F c a b) = (V a * V b - V c) mod p) /\
+  (canon p (maxpy F a b c) /\ V (maxpy F a b c) = (V c - V a * V b) mod p) /\
+  (canon p (maxpyin F c a b) /\ V (maxpyin F c a b) = (V c - V a * V b) mod p).
+Lemma M32_fused_ops : M32_fused_ops_stmt.
+Proof.
+  intros p F HR V a b c Ha Hb Hc. destruct (Ring32_wf p F HR) as [<- HF]. subst V.
+  split; [apply (axpy_ok F HF); assumption|]. split; [apply (axpyin_ok F HF); assumption|].
+  split; [apply (axmy_ok F HF); assumption|]. split; [apply (axmyin_ok F HF); assumption|].
+  split; [apply (maxpy_ok F HF); assumption | apply (maxpyin_ok F HF); assumption].
+Qed.
+
+Definition M32_inv_div_stmt : Prop := forall p F, Ring32 p F ->
+  let V := convert F in forall a b, canon p a -> canon p b -> Z.gcd b p = 1 ->
+  (exists r, inv F b = Some r /\ invin F b = Some r /\ canon p r /\ (V r * V b) mod p = 1) /\
+  (exists q, div32 F a b = Some q /\ canon p q /\ (V q * V b) mod p = V a) /\
+  (exists q, divin F a b = Some q /\ canon p q /\ (V q * V b) mod p = V a) /\
+  isUnit F b = Some true.
+Lemma M32_inv_div : M32_inv_div_stmt.
+Proof.
+  intros p F HR V a b Ha Hb Hg. destruct (Ring32_wf p F HR) as [<- HF]. subst V.
+  split.
+  { destruct (inv_ok F HF b Hb Hg) as (r & E & Hr & Hi). exists r. unfold invin. repeat split; assumption || apply Hr. }
+  split; [apply (div_ok F HF); assumption|]. split; [apply (divin_ok F HF); assumption|].
+  rewrite (isUnit_ok F HF b Hb). rewrite Hg. reflexivity.
+Qed.
+
+Definition M32_isUnit_stmt : Prop := forall p F, Ring32 p F -> forall a, canon p a ->
+  isUnit F a = Some (Z.gcd a p =? 1).
+Lemma M32_isUnit : M32_isUnit_stmt.
+Proof. intros p F HR a Ha. destruct (Ring32_wf p F HR) as [<- HF]. apply (isUnit_ok F HF a Ha). Qed.
+
+(* "initialising and converting back is the identity on [0, p)", for every init overload, and the other way round *)
+Definition M32_init_convert_stmt : Prop := forall p F, Ring32 p F ->
+  let V := convert F in
+  (forall f, In f (init_double :: init_int64 :: init_uint64 :: init_integer :: init_int32 :: init_uint32 ::
+                   init_longlong :: init_ulonglong :: nil) ->
+     forall x, canon p x -> canon p (f F x) /\ V (f F x) = x) /\
+  (forall a, canon p a -> canon p (V a) /\ init_uint32 F (V a) = a /\ write_value F a = V a).
+Lemma M32_init_convert : M32_init_convert_stmt.
+Proof.
+  intros p F HR V. destruct (Ring32_wf p F HR) as [<- HF]. subst V. split.
+  - intros f Hf. cbn [In] in Hf.
+    destruct Hf as [<-|[<-|[<-|[<-|[<-|[<-|[<-|[<-|[]]]]]]]]].
+    + apply (init_double_id F HF). + apply (init_int64_id F HF). + apply (init_uint64_id F HF).
+    + apply (init_integer_id F HF). + apply (init_int32_id F HF). + apply (init_uint32_id F HF).
+    + apply (init_longlong_id F HF). + apply (init_ulonglong_id F HF).
+  - intros a Ha. destruct (convert_init F HF a Ha) as [H1 H2]. split; [exact H1|]. split; [exact H2|].
+    apply (write_is_convert F HF a Ha).
+Qed.
+
+Definition M32_constants_predicates_stmt : Prop := forall p F, Ring32 p F ->
+  let V := convert F in
+  (canon p (m_one F) /\ V (m_one F) = 1 /\ canon p (m_mOne F) /\ V (m_mOne F) = p - 1 /\ V 0 = 0 /\ init0 = 0) /\
+  (forall a b, canon p a -> canon p b ->
+     isZero a = (V a =? 0) /\ isOne F a = (V a =? 1) /\ isMOne F a = (V a =? p - 1) /\ areEqual a b = (V a =? V b)).
+Lemma M32_constants_predicates : M32_constants_predicates_stmt.
+Proof.
+  intros p F HR V. destruct (Ring32_wf p F HR) as [<- HF]. subst V. split.
+  - apply (constants_ok F HF).
+  - intros a b Ha Hb. apply (predicates_ok F HF a b Ha Hb).
 Qed.
